@@ -208,3 +208,21 @@ def fn_short(path):
     for pre in ("tx3_tir::model::v1beta0::", "tx3_tir::reduce::", "tx3_tir::", "tx3_lang::", "tx3_cardano::", "tx3_resolver::"):
         p = p.replace(pre, "")
     return p
+
+
+def run_witnesses():
+    """E12: compile-fail witnesses (thorough tier).  Returns (passed, failed, log tail)."""
+    import shutil
+    import subprocess
+    from .facts import VERIF, REPO, CACHE
+    wdir = os.path.join(VERIF, "witness")
+    shutil.copy(os.path.join(REPO, "Cargo.lock"), os.path.join(wdir, "Cargo.lock"))
+    env = dict(os.environ, CARGO_NET_OFFLINE="true", CARGO_TARGET_DIR=os.path.join(CACHE, "witness-target"))
+    env.pop("RUSTC_WORKSPACE_WRAPPER", None)
+    r = subprocess.run(["cargo", "+nightly", "test", "--doc", "--offline"], cwd=wdir, env=env, capture_output=True, text=True)
+    out = r.stdout + r.stderr
+    import re as _r
+    m = _r.search(r"test result: \w+\. (\d+) passed; (\d+) failed", out)
+    if not m:
+        raise BrokenCheck("witness crate did not run: " + out[-1500:])
+    return int(m.group(1)), int(m.group(2)), out[-1500:]
